@@ -681,12 +681,11 @@ def releaseHeldActive (s : State) (x : Proxy) : State :=
 
 /-- `load_from_point` -/
 def loadFromPoint (g : Graph) : State :=
-  let s : State := { stopPoint := g.stopPoint }
-  let (s, f) := newFlow s
+  let N := newFlow { stopPoint := g.stopPoint }      -- (state, the original flow)
   let s := g.tasks.foldl (fun st t =>
       match t.firstParentless with
-      | some p => spawnAndAdd g st t.name p [f]
-      | none => st) s
+      | some p => spawnAndAdd g st t.name p [N.2]
+      | none => st) N.1
   let s := computeRunahead g s
   let s := releaseRunaheadN g 10 s
   s.pool.foldl (fun st x => match st.get? x.pt x.name with
@@ -921,19 +920,22 @@ def groupMsgs (q : List Msg) : List ((Int × String) × List Msg) :=
       acc.map fun e => if e.1 == (m.pt, m.name) then (e.1, e.2 ++ [m]) else e
     else acc ++ [((m.pt, m.name), [m])]) []
 
+/-- one received message of a task's batch: (state, poll requested so far) -/
+def processOne (g : Graph) (p : Int) (n : String) (acc : State × Bool) (m : Msg) : State × Bool :=
+  ((processMessage g 4 acc.1 p n .received m.submitNum m.text false).1,
+   acc.2 || (processMessage g 4 acc.1 p n .received m.submitNum m.text false).2)
+
+/-- the queued messages of one task -/
+def processGroup (g : Graph) (st : State) (grp : (Int × String) × List Msg) : State :=
+  match st.get? grp.1.1 grp.1.2 with
+  | none => st                                   -- no proxy: job-only processing
+  | some _ =>
+    let R := grp.2.foldl (processOne g grp.1.1 grp.1.2) (st, false)
+    if R.2 then { R.1 with polls := R.1.polls ++ [(grp.1.1, grp.1.2)] } else R.1
+
 /-- `process_queued_task_messages` -/
 def processQueue (g : Graph) (s : State) : State :=
-  let groups := groupMsgs s.queue
-  let s := { s with queue := [] }
-  groups.foldl (fun (st : State) grp =>
-    let (p, n) := grp.1
-    match st.get? p n with
-    | none => st                                   -- no proxy: job-only processing
-    | some _ =>
-      let (st, poll) := grp.2.foldl (fun (acc : State × Bool) m =>
-          let (st', pl) := processMessage g 4 acc.1 p n .received m.submitNum m.text false
-          (st', acc.2 || pl)) (st, false)
-      if poll then { st with polls := st.polls ++ [(p, n)] } else st) s
+  (groupMsgs s.queue).foldl (processGroup g) { s with queue := [] }
 
 /-! ### `cylc set` -/
 
@@ -1215,38 +1217,45 @@ def releaseHoldPoint (s : State) : State :=
 
 def maxFlow (f : Flows) : Nat := f.foldl max 0
 
+/-- one row of `task_pool` ⋈ `task_states` ⋈ `task_outputs` loaded by `load_db_task_pool_for_restart`: the pooled
+proxy `x` with the submit number, flow wait and outputs of the row of its flows (no such row: dropped by the JOIN) -/
+def restoreProxy (g : Graph) (rows : List Row) (x : Proxy) : Option Proxy :=
+  match rows.find? (·.isKey x.pt x.name x.flows) with
+  | none => none
+  | some r =>
+    let status := if x.status == .preparing then Status.waiting else x.status
+    let sn := if x.status == .preparing then r.submitNum - 1 else r.submitNum
+    let keepOut := status == .running || status == .failed || status == .succeeded
+    let final := status == .failed || status == .succeeded || status == .expired
+    let hd := (r.outs.map (·.1)).filter fun m => hasOutput g x m
+    some { x with status := status, submitNum := sn, done := (if keepOut then hd else []), forced := [],
+                  flowWait := r.flowWait,
+                  queued := false, runahead := !final, retryWait := false, live := false,
+                  upd := (x.status == .preparing) || final }
+
+/-- the flow numbers seen in a pool (`update_flow_mgr`) -/
+def flowsSeen (pool : List Proxy) : Flows := pool.foldl (fun acc x => fUnion acc x.flows) []
+
 /-- clean restart from the database written at shutdown (`load_db_task_pool_for_restart`, `configure`):
 the pool table joined with the `task_states` / `task_outputs` rows of the same flows -/
-def restart (g : Graph) (s : State) : State :=
-  let s := flushDb (putTaskPool s)             -- `shutdown` writes the task pool once more
-  let restore (x : Proxy) : Option Proxy :=
-    match s.rows.find? (·.isKey x.pt x.name x.flows) with
-    | none => none                             -- no `task_states` row of these flows: dropped by the JOIN
-    | some r =>
-      let (status, sn) := if x.status == .preparing then (Status.waiting, r.submitNum - 1) else (x.status, r.submitNum)
-      let keepOut := status == .running || status == .failed || status == .succeeded
-      let final := status == .failed || status == .succeeded || status == .expired
-      let hd := (r.outs.map (·.1)).filter fun m => hasOutput g x m
-      let y : Proxy :=
-        { x with status := status, submitNum := sn, done := (if keepOut then hd else []), forced := [],
-                 flowWait := r.flowWait,
-                 queued := false, runahead := !final, retryWait := false, live := false,
-                 upd := (x.status == .preparing) || final }
-      some y
+def reloaded (g : Graph) (s : State) : State :=
   -- stop point: DB `stopcp`, else flow.cylc, else the final point
   let cfgStop : Option Int := match s.dbStopCp with | some p => some p | none => g.cfgStop
-  let pool := s.pool.filterMap restore
+  let pool := s.pool.filterMap (restoreProxy g s.rows)
   let wait := pool.isEmpty || (match cfgStop with
     | some sp => pool.all (fun x => x.pt > sp)
     | none => false)
-  let seen := pool.foldl (fun acc x => fUnion acc x.flows) []
-  let s' : State :=
-    { pool := pool, rows := s.rows, absDone := s.absDone,
-      tasksToHold := s.tasksToHold, holdPoint := s.holdPoint, stopPoint := some (cfgStop.getD g.fcp),
-      dbStopCp := s.dbStopCp, restartWait := wait,
-      stopTask := s.stopTask, stopTaskFinished := false, schedUpd := true,
-      flowCounter := maxFlow s.flowsDb, flowsKnown := s.flowsDb.filter (seen.contains ·), flowsDb := s.flowsDb }
-  -- `configure` re-applies the hold point after the pool is loaded
+  { pool := pool, rows := s.rows, absDone := s.absDone,
+    tasksToHold := s.tasksToHold, holdPoint := s.holdPoint, stopPoint := some (cfgStop.getD g.fcp),
+    dbStopCp := s.dbStopCp, restartWait := wait,
+    stopTask := s.stopTask, stopTaskFinished := false, schedUpd := true,
+    flowCounter := maxFlow s.flowsDb, flowsKnown := s.flowsDb.filter ((flowsSeen pool).contains ·),
+    flowsDb := s.flowsDb }
+
+def restart (g : Graph) (s0 : State) : State :=
+  -- `shutdown` writes the task pool once more; the new scheduler loads the database ...
+  let s' := reloaded g (flushDb (putTaskPool s0))
+  -- ... and `configure` re-applies the hold point after the pool is loaded
   flushDb (match s'.holdPoint with
   | some hp => setHoldPoint s' hp
   | none => s')
